@@ -315,3 +315,237 @@ Section Unit.
       rewrite (root_die_not_null codes e o dd t Hn). reflexivity.
   Qed.
 End Unit.
+
+(* ------------------------------------------------------------------ *)
+(** * next_sibling *)
+
+Inductive answer : Type :=
+| ASome (d : die) (c : cursor) | ANone | AErr (x : error) | ARes (x : error) | APanic | AOOF.
+
+(* what a caller observes of a step: the entry returned together with the cursor it continues with;
+   after `None` or an error the cursor is not used for navigation any more *)
+Definition ans (r : res (step (option die))) : answer :=
+  match r with
+  | Ok (SOk (Some d) c) => ASome d c
+  | Ok (SOk None _) => ANone
+  | Ok (SErr x _) => AErr x
+  | Err x => ARes x
+  | Panic => APanic
+  | OutOfFuel => AOOF
+  end.
+
+(* the second half of the loop body of next_sibling: next_entry, depth test, loop *)
+Definition sib_half (fuel : nat) (dbg : bool) (e : enc) (tbl : abbrevs) (T : Z) (c1 : cursor)
+  : res (step (option die)) :=
+  let* s := next_entry dbg e tbl c1 in
+  match s with
+  | SErr x c' => Ok (SErr x c')
+  | SOk false c' => Ok (SOk None c')
+  | SOk true c' =>
+      if (d_depth (c_cur c') =? T)%Z then Ok (SOk (current c') c')
+      else sibling_loop fuel dbg e tbl T c'
+  end.
+
+Lemma sibling_loop_S k dbg e tbl T c :
+  sibling_loop (S k) dbg e tbl T c =
+  let* r1 := (match current c with
+              | Some cur => sibling_jump dbg (c_raw c) cur
+              | None => Ok (c_raw c)
+              end) in
+  sib_half k dbg e tbl T (mkCur r1 (c_cur c)).
+Proof. reflexivity. Qed.
+
+Lemma sib_half_cur f dbg e tbl T r c1 c2 :
+  ans (sib_half f dbg e tbl T (mkCur r c1)) = ans (sib_half f dbg e tbl T (mkCur r c2)).
+Proof.
+  unfold sib_half, next_entry. cbn [c_raw c_cur]. destruct (raw_is_empty r); [reflexivity|].
+  destruct (read_entry dbg e tbl r) as [[[ok d] r']| | |]; reflexivity.
+Qed.
+
+Definition tail_evs (codes : coding) (bigend : bool) (d : Z) (off : N) (t : tree) : list xev :=
+  if has_children t
+  then evs_list codes bigend (d + 1) (kids_off codes off t) (t_kids t) ++
+       [null_ev (off + tree_size codes t - 1) (d + 1)]
+  else [].
+
+Lemma evs_tail codes bigend d off t :
+  evs codes bigend d off t = head_ev codes bigend d off t :: tail_evs codes bigend d off t.
+Proof. rewrite evs_unfold. reflexivity. Qed.
+
+Lemma tail_end_depth codes bigend d off t :
+  end_depth (post_depth d t) (tail_evs codes bigend d off t) = d.
+Proof.
+  destruct (evs_chain codes bigend t d off) as [_ E]. rewrite evs_tail in E.
+  cbn [end_depth head_ev x_post] in E. exact E.
+Qed.
+
+Lemma tail_bytes_len codes bigend d off t :
+  kids_off codes off t + nlen (xbytes (tail_evs codes bigend d off t)) = off + tree_size codes t.
+Proof.
+  pose proof (evs_bytes codes bigend t d off) as E. rewrite evs_tail, xbytes_cons in E.
+  apply (f_equal nlen) in E. rewrite nlen_app, enc_tree_len in E. cbn [head_ev x_bytes] in E.
+  rewrite head_bytes_len in E. pose proof (kids_off_ge codes off t). lia.
+Qed.
+
+Lemma at_chain_nil dbg e tbl E rest r l :
+  at_chain dbg e tbl E rest r l -> r = mkRaw (xbytes l ++ rest) E (r_depth r).
+Proof. intros [_ Hin Hend _ _ _ _]. destruct r as [i en d]. cbn [r_in r_end r_depth] in *. subst. reflexivity. Qed.
+
+Lemma at_chain_drop dbg e tbl E rest : forall l1 r l2,
+  at_chain dbg e tbl E rest r (l1 ++ l2) ->
+  at_chain dbg e tbl E rest (mkRaw (xbytes l2 ++ rest) E (end_depth (r_depth r) l1)) l2.
+Proof.
+  induction l1 as [|x l1 IH]; intros r l2 H.
+  - cbn [app end_depth] in *. rewrite <- (at_chain_nil _ _ _ _ _ _ _ H). exact H.
+  - cbn [app] in H. destruct (at_chain_step _ _ _ _ _ _ _ _ H) as (_ & H' & _).
+    apply IH in H'. cbn [r_depth end_depth] in *. exact H'.
+Qed.
+
+(* the sibling pointer of a well-formed entry *)
+Lemma find_sibling e next : forall items s v,
+  Forall (item_ok e) items ->
+  find (fun p : aspec * attr_value => at_name (fst p) =? DW_AT_sibling) (map (item_val next) items) = Some (s, v) ->
+  at_name s = DW_AT_sibling /\ v = VUnitRef next.
+Proof.
+  induction items as [|it items IH]; intros s v Hok H; [discriminate|]. inversion Hok as [|? ? Hit Hl]; subst.
+  cbn [map find] in H. destruct it as [a|w]; cbn [item_val fst] in H.
+  - destruct Hit as (u & (_ & _ & _ & Hn) & Hr). unfold resolve in Hr.
+    destruct (enc_layout _ _ _); [|discriminate]. destruct (form_value _ _ _ _ _); [|discriminate].
+    inversion Hr; subst a. cbn [a_spec at_name] in H.
+    replace (u_name u =? DW_AT_sibling) with false in H by (symmetry; apply N.eqb_neq; exact Hn).
+    apply IH; assumption.
+  - cbn [sib_spec at_name] in H. rewrite N.eqb_refl in H. inversion H; subst. split; reflexivity.
+Qed.
+
+Lemma die_sibling_root codes e off d t : node_ok codes e t ->
+  die_sibling (root_die codes off d t) = None \/
+  die_sibling (root_die codes off d t) = Some (off + tree_size codes t).
+Proof.
+  intros [_ Hitems]. unfold die_sibling, die_attr_value, root_die. cbn [d_attrs d_offset].
+  destruct (find _ _) as [[s v]|] eqn:F; [|left; reflexivity].
+  apply (find_sibling e) in F; [|exact Hitems]. destruct F as [Hs ->]. rewrite Hs.
+  change (attr_normalise DW_AT_sibling (VUnitRef (off + tree_size codes t))) with (VUnitRef (off + tree_size codes t)).
+  pose proof (tree_size_pos codes t). cbv beta iota.
+  destruct (N.ltb_spec off (off + tree_size codes t)); [right; reflexivity|lia].
+Qed.
+
+Lemma sibling_jump_root dbg e tbl codes E rest r d off t l2 :
+  node_ok codes e t ->
+  at_chain dbg e tbl E rest r (tail_evs codes (be e) d off t ++ l2) ->
+  E = kids_off codes off t + nlen (xbytes (tail_evs codes (be e) d off t ++ l2) ++ rest) ->
+  sibling_jump dbg r (root_die codes off d t) = Ok r \/
+  sibling_jump dbg r (root_die codes off d t) = Ok (mkRaw (xbytes l2 ++ rest) E d).
+Proof.
+  intros Hn Hat HE. unfold sibling_jump. cbn [root_die d_children].
+  destruct (has_children t); [|left; reflexivity].
+  fold (root_die codes off d t).
+  destruct (die_sibling_root codes e off d t Hn) as [-> | ->]; [left; reflexivity|]. right.
+  unfold seek_forward. pose proof (at_chain_nil _ _ _ _ _ _ _ Hat) as Er.
+  destruct Hat as [_ Hin Hend _ Hle _ _].
+  unfold next_offset, chk_sub. rewrite Hend, Hin.
+  replace (nlen (xbytes (tail_evs codes (be e) d off t ++ l2) ++ rest) <=? E) with true by lia. cbn [bind].
+  pose proof (tail_bytes_len codes (be e) d off t) as Ht.
+  rewrite xbytes_app, <- app_assoc, !nlen_app in *.
+  replace (off + tree_size codes t <? E - (nlen (xbytes (tail_evs codes (be e) d off t)) + (nlen (xbytes l2) + nlen rest)))
+    with false by lia.
+  replace (off + tree_size codes t - (E - (nlen (xbytes (tail_evs codes (be e) d off t)) + (nlen (xbytes l2) + nlen rest))))
+    with (nlen (xbytes (tail_evs codes (be e) d off t))) by lia.
+  rewrite skip_n_app_len. cbn [bind root_die d_depth]. reflexivity.
+Qed.
+
+(* skipping a subtree: the loop started on the root entry of [t] behaves like the second half of an
+   iteration started right after the subtree *)
+Definition skip_claim (dbg : bool) (e : enc) (tbl : abbrevs) (codes : coding) (E : N) (rest : list byte) (T : Z)
+  (t : tree) : Prop :=
+  forall d off l2 c, (T <= d)%Z ->
+    c_cur c = root_die codes off d t ->
+    at_chain dbg e tbl E rest (c_raw c) (tail_evs codes (be e) d off t ++ l2) ->
+    r_depth (c_raw c) = post_depth d t ->
+    E = kids_off codes off t + nlen (xbytes (tail_evs codes (be e) d off t ++ l2) ++ rest) ->
+    Forall (placed_ok e tbl codes) (placed codes off t) ->
+    forall f r cur', sib_half f dbg e tbl T (mkCur (mkRaw (xbytes l2 ++ rest) E d) cur') = r -> ans r <> AOOF ->
+    exists f', ans (sibling_loop f' dbg e tbl T c) = ans r.
+
+Lemma skip_list dbg e tbl codes E rest T : forall ks D off' m r0,
+  (T < D)%Z -> Forall (skip_claim dbg e tbl codes E rest T) ks ->
+  at_chain dbg e tbl E rest r0 (evs_list codes (be e) D off' ks ++ m) -> r_depth r0 = D ->
+  E = off' + nlen (xbytes (evs_list codes (be e) D off' ks ++ m) ++ rest) ->
+  Forall (placed_ok e tbl codes) (on_list (placed codes) (tree_size codes) off' ks) ->
+  forall f r cur', sib_half f dbg e tbl T (mkCur (mkRaw (xbytes m ++ rest) E D) cur') = r -> ans r <> AOOF ->
+  exists f', forall cur'', ans (sib_half f' dbg e tbl T (mkCur r0 cur'')) = ans r.
+Proof.
+  induction ks as [|k ks IH]; intros D off' m r0 HT Hcl Hat Hd HE Hp f r cur' Hr Hoof.
+  - exists f. intros cur''. cbn [evs_list on_list app] in Hat.
+    rewrite (at_chain_nil _ _ _ _ _ _ _ Hat), Hd, <- Hr. apply sib_half_cur.
+  - apply Forall_cons_iff in Hcl. destruct Hcl as [Hk Hks].
+    unfold evs_list in Hat, HE. rewrite on_list_cons in Hat, HE. rewrite on_list_cons in Hp.
+    fold (evs_list codes (be e) D (off' + tree_size codes k) ks) in Hat, HE.
+    apply Forall_app in Hp. destruct Hp as [Hpk Hpks].
+    rewrite evs_tail in Hat, HE. rewrite <- !app_assoc in Hat, HE. cbn [app] in Hat, HE.
+    set (l2 := evs_list codes (be e) D (off' + tree_size codes k) ks ++ m) in *.
+    destruct (at_chain_step _ _ _ _ _ _ _ _ Hat) as (_ & Hat1 & _).
+    cbn [head_ev x_post] in Hat1.
+    (* the state after the subtree of k *)
+    pose proof (at_chain_drop _ _ _ _ _ _ _ _ Hat1) as Hat2. cbn [r_depth] in Hat2.
+    rewrite tail_end_depth in Hat2.
+    assert (HE1 : E = kids_off codes off' k + nlen (xbytes (tail_evs codes (be e) D off' k ++ l2) ++ rest)).
+    { rewrite xbytes_cons in HE. cbn [head_ev x_bytes] in HE. rewrite <- app_assoc, nlen_app, head_bytes_len in HE.
+      pose proof (kids_off_ge codes off' k). lia. }
+    assert (HE2 : E = off' + tree_size codes k + nlen (xbytes l2 ++ rest)).
+    { pose proof (tail_bytes_len codes (be e) D off' k). rewrite xbytes_app, <- app_assoc, nlen_app in HE1. lia. }
+    destruct (IH D (off' + tree_size codes k) m (mkRaw (xbytes l2 ++ rest) E D) HT Hks Hat2 eq_refl HE2 Hpks f r cur' Hr Hoof)
+      as (f1 & Hf1).
+    set (c1 := mkCur (mkRaw (xbytes (tail_evs codes (be e) D off' k ++ l2) ++ rest) E (post_depth D k))
+                     (root_die codes off' D k)).
+    destruct (Hk D off' l2 c1 ltac:(lia) eq_refl Hat1 eq_refl HE1 Hpk f1
+                 (sib_half f1 dbg e tbl T (mkCur (mkRaw (xbytes l2 ++ rest) E D) null_die)) null_die eq_refl)
+      as (f2 & Hf2); [rewrite Hf1; exact Hoof|].
+    exists f2. intros cur''. unfold sib_half at 1.
+    rewrite (next_entry_chain dbg e tbl E rest (mkCur r0 cur'') _ _ Hat). cbn [bind c_cur head_ev x_die x_post root_die d_depth].
+    replace (D =? T)%Z with false by lia. fold (root_die codes off' D k). fold c1.
+    rewrite Hf2. apply Hf1.
+Qed.
+
+Lemma skip_tree dbg e tbl codes E rest T : forall t, skip_claim dbg e tbl codes E rest T t.
+Proof.
+  induction t as [tag flag items kids IH] using tree_ind'.
+  set (t := Node tag flag items kids) in *.
+  intros d off l2 c HT Hcur Hat Hdep HE Hp f r cur' Hr Hoof.
+  rewrite placed_unfold in Hp. apply Forall_cons_iff in Hp. destruct Hp as [(Hcv & Hn & Hfit) Hpk]. cbn [snd] in *.
+  change (t_kids t) with kids in Hpk.
+  assert (Hcurrent : current c = Some (root_die codes off d t)).
+  { unfold current. rewrite Hcur, (root_die_not_null codes e off d t Hn). reflexivity. }
+  assert (Direct : forall g, ans (sib_half g dbg e tbl T (mkCur (mkRaw (xbytes l2 ++ rest) E d) (c_cur c))) =
+                             ans (sib_half g dbg e tbl T (mkCur (mkRaw (xbytes l2 ++ rest) E d) cur'))).
+  { intros g. apply sib_half_cur. }
+  destruct (sibling_jump_root dbg e tbl codes E rest (c_raw c) d off t l2 Hn Hat HE) as [J|J].
+  - (* no jump *)
+    destruct (has_children t) eqn:Hc.
+    + (* through the children, then their terminator *)
+      unfold tail_evs in Hat, HE. rewrite Hc in Hat, HE. change (t_kids t) with kids in Hat, HE.
+      rewrite <- app_assoc in Hat, HE. cbn [app] in Hat, HE.
+      set (nul := null_ev (off + tree_size codes t - 1) (d + 1)) in *.
+      unfold post_depth in Hdep. rewrite Hc in Hdep.
+      pose proof (at_chain_drop _ _ _ _ _ _ _ _ Hat) as Hatm. rewrite Hdep in Hatm.
+      destruct (evs_list_chain codes (be e) (d + 1) kids (kids_off codes off t)) as [_ Eend].
+      rewrite Eend in Hatm.
+      (* reading the terminator and going round the loop once more *)
+      assert (Hm : forall cur0, ans (sib_half (S f) dbg e tbl T
+                      (mkCur (mkRaw (xbytes (nul :: l2) ++ rest) E (d + 1)) cur0)) = ans r).
+      { intros cur0. unfold sib_half at 1.
+        rewrite (next_entry_chain dbg e tbl E rest (mkCur _ cur0) _ _ Hatm).
+        cbn [bind c_cur nul null_ev x_die x_post null_at d_depth].
+        replace (d + 1 =? T)%Z with false by lia. rewrite sibling_loop_S.
+        unfold current at 1. cbn [c_cur is_null d_tag N.eqb c_raw bind].
+        replace (d + 1 - 1)%Z with d by lia. rewrite <- Hr. apply sib_half_cur. }
+      destruct (skip_list dbg e tbl codes E rest T kids (d + 1)%Z (kids_off codes off t) (nul :: l2) (c_raw c)
+                  ltac:(lia) IH Hat Hdep HE Hpk (S f) _ null_die eq_refl) as (f' & Hf'); [rewrite Hm; exact Hoof|].
+      exists (S f'). rewrite sibling_loop_S, Hcurrent, J. cbn [bind]. rewrite Hf'. apply Hm.
+    + (* no children: the reader is already behind the entry *)
+      unfold tail_evs in Hat. rewrite Hc in Hat. cbn [app] in Hat.
+      unfold post_depth in Hdep. rewrite Hc in Hdep.
+      exists (S f). rewrite sibling_loop_S, Hcurrent, J. cbn [bind].
+      rewrite (at_chain_nil _ _ _ _ _ _ _ Hat), Hdep, Direct, Hr. reflexivity.
+  - (* the DW_AT_sibling jump lands behind the subtree *)
+    exists (S f). rewrite sibling_loop_S, Hcurrent, J. cbn [bind]. rewrite Direct, Hr. reflexivity.
+Qed.
